@@ -31,6 +31,13 @@ fn fill24(v: &mut Vec<(String, String, String)>, facts: &mut Vec<(String, i128)>
         Err(c) => fail(v, "C12", "with-capacity-limit", format!("with_capacity(2^24+1) panicked with '{}'", c.msg)),
         Ok(_) => fail(v, "C12", "with-capacity-limit", "with_capacity(2^24+1) did not panic".into()),
     }
+    for huge in [u32::MAX as usize, u32::MAX as usize + 1, 1usize << 32, (1usize << 32) + 5, 1usize << 40, usize::MAX >> 1, usize::MAX] {
+        match catch(|| WZ::with_capacity(WZCapacity { arch_z: huge })) {
+            Err(c) if c.msg.contains("capacity may not exceed") => {}
+            Err(c) => fail(v, "C12", "with-capacity-limit", format!("with_capacity({}) panicked with '{}'", huge, c.msg)),
+            Ok(w) => fail(v, "C12", "with-capacity-limit", format!("with_capacity({}) did not panic (capacity() = {})", huge, w.arch_z.capacity())),
+        }
+    }
     match catch(|| WZ::with_capacity(WZCapacity { arch_z: LIMIT })) {
         Ok(w) => {
             if w.arch_z.capacity() < LIMIT {
